@@ -48,6 +48,14 @@ pub struct Case {
     /// bit 0 danger_accept_invalid_certs(false), bit 1 danger_accept_invalid_hostnames(false)
     #[serde(default)]
     pub withdraw: u8,
+    /// before the request that is judged, a sibling request of the same session is *sent* (same route, a peer of its own) with
+    /// 1: danger_accept_invalid_certs(true), 2: danger_accept_invalid_hostnames(true). What one request was allowed to skip
+    /// is not skipped for the next.
+    #[serde(default)]
+    pub prior: u8,
+    /// the one cell with a certificate made at run time (openssl CLI) that expires between two exchanges
+    #[serde(default)]
+    pub expiring: bool,
 }
 
 pub struct C14;
@@ -91,9 +99,9 @@ pub fn all_cases() -> Vec<Case> {
                     for route in 0..3u8 {
                         for place in 0..5u8 {
                             for host_form in 0..2u8 {
-                                v.push(Case { cert, invalid_certs, invalid_hostnames, add_root, route, place, host_form, pin_leaf: false, withdraw: 0 });
+                                v.push(Case { cert, invalid_certs, invalid_hostnames, add_root, route, place, host_form, pin_leaf: false, withdraw: 0, prior: 0, expiring: false });
                                 if add_root {
-                                    v.push(Case { cert, invalid_certs, invalid_hostnames, add_root, route, place, host_form, pin_leaf: true, withdraw: 0 });
+                                    v.push(Case { cert, invalid_certs, invalid_hostnames, add_root, route, place, host_form, pin_leaf: true, withdraw: 0, prior: 0, expiring: false });
                                 }
                             }
                         }
@@ -109,7 +117,7 @@ pub fn all_cases() -> Vec<Case> {
                 for add_root in [false, true] {
                     for place in 0..5u8 {
                         for host_form in 0..2u8 {
-                            v.push(Case { cert, invalid_certs, invalid_hostnames, add_root, route: 3, place, host_form, pin_leaf: false, withdraw: 0 });
+                            v.push(Case { cert, invalid_certs, invalid_hostnames, add_root, route: 3, place, host_form, pin_leaf: false, withdraw: 0, prior: 0, expiring: false });
                         }
                     }
                 }
@@ -122,13 +130,61 @@ pub fn all_cases() -> Vec<Case> {
             for add_root in [false, true] {
                 for place in 0..2u8 {
                     for host_form in 0..2u8 {
-                        v.push(Case { cert, invalid_certs, invalid_hostnames, add_root, route: 0, place, host_form, pin_leaf: false, withdraw });
+                        v.push(Case { cert, invalid_certs, invalid_hostnames, add_root, route: 0, place, host_form, pin_leaf: false, withdraw, prior: 0, expiring: false });
                     }
                 }
             }
         }
     }
+    // a sibling request with a waiver is sent first (same session, same thread): the judged request has no waiver
+    for cert in 0..CERTS.len() as u8 {
+        for add_root in [false, true] {
+            for route in [0u8, 1] {
+                for prior in [1u8, 2] {
+                    for host_form in 0..2u8 {
+                        v.push(Case { cert, invalid_certs: false, invalid_hostnames: false, add_root, route, place: 0, host_form, pin_leaf: false, withdraw: 0, prior, expiring: false });
+                    }
+                }
+            }
+        }
+    }
+    // validity is judged at the time of each exchange
+    v.push(Case { cert: 0, invalid_certs: false, invalid_hostnames: false, add_root: true, route: 0, place: 0, host_form: 0, pin_leaf: false, withdraw: 0, prior: 0, expiring: true });
     v
+}
+
+/// A leaf for `localhost` / 127.0.0.1 signed by the fixture root that is valid from a minute ago until `secs` seconds from now;
+/// returns the path prefix of `<prefix>.pem` / `<prefix>.key` and the instant of expiry, or None when the openssl CLI cannot do it.
+fn make_expiring_leaf(secs: u64) -> Option<(String, std::time::SystemTime)> {
+    use std::process::Command;
+    let dir = std::env::temp_dir().join(format!("vcheck-c14-{}-{:?}", std::process::id(), std::thread::current().id()).replace(['(', ')'], ""));
+    std::fs::create_dir_all(&dir).ok()?;
+    let certs = crate::engine::verif_root().join("fixtures/certs");
+    let p = |n: &str| dir.join(n).to_string_lossy().into_owned();
+    let now = std::time::SystemTime::now();
+    let fmt = |t: std::time::SystemTime| -> Option<String> {
+        let secs = t.duration_since(std::time::UNIX_EPOCH).ok()?.as_secs();
+        let out = Command::new("date").args(["-u", "-d", &format!("@{secs}"), "+%Y%m%d%H%M%SZ"]).output().ok()?;
+        if !out.status.success() {
+            return None;
+        }
+        Some(String::from_utf8_lossy(&out.stdout).trim().to_string())
+    };
+    let end = now + std::time::Duration::from_secs(secs);
+    let (nb, na) = (fmt(now - std::time::Duration::from_secs(60))?, fmt(end)?);
+    let ok = |c: &mut Command| c.stdout(std::process::Stdio::null()).stderr(std::process::Stdio::null()).status().map(|s| s.success()).unwrap_or(false);
+    if !ok(Command::new("openssl").args(["req", "-newkey", "rsa:2048", "-nodes", "-keyout", &p("leaf.key"), "-out", &p("leaf.csr"), "-subj", "/CN=expiring"])) {
+        return None;
+    }
+    std::fs::write(dir.join("leaf.ext"), "subjectAltName=DNS:localhost,IP:127.0.0.1\nbasicConstraints=CA:FALSE\nextendedKeyUsage=serverAuth\n").ok()?;
+    if !ok(Command::new("openssl").args([
+        "x509", "-req", "-in", &p("leaf.csr"), "-CA", &certs.join("root.pem").to_string_lossy(), "-CAkey", &certs.join("root.key").to_string_lossy(), "-CAserial", &p("serial.srl"), "-CAcreateserial",
+        "-out", &p("leaf.pem"), "-extfile", &p("leaf.ext"), "-not_before", &nb, "-not_after", &na,
+    ])) {
+        return None;
+    }
+    // not_after has whole-second resolution: the certificate is expired from the start of the next second on
+    Some((p("leaf"), end + std::time::Duration::from_secs(1)))
 }
 
 fn apply_session(s: &mut attohttpc::Session, c: &Case) {
@@ -156,12 +212,60 @@ fn apply_builder(mut b: attohttpc::RequestBuilder, c: &Case) -> attohttpc::Reque
     b
 }
 
+/// A certificate that is valid now and expires in a few seconds: accepted while valid, refused once expired (a verdict reached
+/// earlier in the process is not a verdict about now).
+fn check_expiring(ctx: &mut Ctx) -> Outcome {
+    ctx.nontrivial = true;
+    let Some((prefix, expiry)) = make_expiring_leaf(4) else {
+        ctx.label("expiring-certificate:skipped(openssl CLI cannot make one)");
+        return Outcome::Pass;
+    };
+    ctx.label("expiring-certificate");
+    let name: &'static str = Box::leak(prefix.clone().into_boxed_str());
+    attohttpc::verif_hooks::set_resolver(Some(Box::new(move |d, p| if d == "localhost" { Some(vec![SocketAddr::from(([127, 0, 0, 1], p))]) } else { None })));
+    let exchange = |path: &str| -> Result<(), String> {
+        let mut peer = tls_server(name);
+        let port = peer.port();
+        let mut session = attohttpc::Session::new();
+        session.proxy_settings(attohttpc::ProxySettings::builder().build());
+        session.connect_timeout(std::time::Duration::from_secs(5));
+        session.read_timeout(std::time::Duration::from_secs(5));
+        session.add_root_certificate(anchor_cert("root"));
+        let r = session.get(format!("https://localhost:{port}/{path}")).send().and_then(|r| r.text_utf8()).map(|_| ()).map_err(|e| format!("{e:?}"));
+        peer.join();
+        r
+    };
+    let first = exchange("while-valid");
+    let still_valid = std::time::SystemTime::now() + std::time::Duration::from_millis(300) < expiry;
+    if let Err(e) = &first {
+        attohttpc::verif_hooks::set_resolver(None);
+        if !still_valid {
+            // the machine was too slow: the certificate expired before the first exchange ended
+            ctx.label("expiring-certificate:first-exchange-too-late(accepted)");
+            return Outcome::Pass;
+        }
+        return Outcome::fail(format!("C14:{}:valid-peer-rejected", backend()), format!("[{}] a certificate inside its validity period (it expires in a few seconds), chaining to the added root, was refused: {e}", backend()));
+    }
+    let wait = expiry.duration_since(std::time::SystemTime::now()).unwrap_or_default() + std::time::Duration::from_millis(1500);
+    std::thread::sleep(wait);
+    let second = exchange("after-expiry");
+    attohttpc::verif_hooks::set_resolver(None);
+    let _ = std::fs::remove_dir_all(std::path::Path::new(&prefix).parent().unwrap());
+    match second {
+        Err(_) => Outcome::Pass,
+        Ok(()) => Outcome::fail(
+            format!("C14:{}:expired-accepted", backend()),
+            format!("[{}] the same certificate was accepted again 1.5 s after its validity period had ended (it had been accepted {} ms earlier while valid)", backend(), wait.as_millis()),
+        ),
+    }
+}
+
 impl Property for C14 {
     type Case = Case;
     const ID: &'static str = "C14";
     const RULE: &'static str = "configuration matrix {chains to the added root, wrong name, self-signed, unknown issuer, expired, each with matching / differing name, valid for only one of the two names of the peer, self-signed CA:TRUE, the good chain served without its key} x accept_invalid_certs x accept_invalid_hostnames x root added {no, the CA, the presented certificate itself} x \
 route {direct https, inside a CONNECT tunnel through a plain proxy, https proxy presenting the certificate for an http origin and for a tunnelled https origin} x where the flags/root were set {session, this request, sibling request created before / after, session after the request was created} x \
-contacted host {localhost, 127.0.0.1}: 5760 cells per TLS backend (the product of 12 certificates, 800 for an https proxy that carries a CONNECT tunnel, 400 with a waiver given and then withdrawn on the request), each a real TLS handshake against a rustls server on a loopback socket; both tiers run all cells of both backends. Oracle = the truth table, both directions. \
+contacted host {localhost, 127.0.0.1}: 5953 cells per TLS backend (the product of 12 certificates, 192 cells in which a sibling request with a waiver is sent first, one cell with a certificate made at run time that expires between two exchanges, 800 for an https proxy that carries a CONNECT tunnel, 400 with a waiver given and then withdrawn on the request), each a real TLS handshake against a rustls server on a loopback socket; both tiers run all cells of both backends. Oracle = the truth table, both directions. \
 non-trivial = at least one danger flag, an added root or a non-valid certificate; distinct by cell";
 
     fn assumptions() -> Vec<String> {
@@ -214,11 +318,14 @@ non-trivial = at least one danger flag, an added root or a non-valid certificate
 
     fn strategy(_tier: Tier) -> BoxedStrategy<Case> {
         (0u8..CERTS.len() as u8, any::<bool>(), any::<bool>(), any::<bool>(), 0u8..3, 0u8..5, 0u8..2)
-            .prop_map(|(cert, invalid_certs, invalid_hostnames, add_root, route, place, host_form)| Case { cert, invalid_certs, invalid_hostnames, add_root, route, place, host_form, pin_leaf: false, withdraw: 0 })
+            .prop_map(|(cert, invalid_certs, invalid_hostnames, add_root, route, place, host_form)| Case { cert, invalid_certs, invalid_hostnames, add_root, route, place, host_form, pin_leaf: false, withdraw: 0, prior: 0, expiring: false })
             .boxed()
     }
 
     fn check(case: &Case, ctx: &mut Ctx) -> Outcome {
+        if case.expiring {
+            return check_expiring(ctx);
+        }
         let (fixture, chains, expired, ok_localhost, ok_ip) = CERTS[case.cert as usize % CERTS.len()];
         let host = if case.host_form == 0 { "localhost" } else { "127.0.0.1" };
         let name_ok = if case.host_form == 0 { ok_localhost } else { ok_ip };
@@ -268,6 +375,24 @@ non-trivial = at least one danger flag, an added root or a non-valid certificate
                 rb
             }
         };
+        if case.prior != 0 {
+            // the sibling goes to a peer of its own (same fixture, same kind of route); whether it succeeds is not judged here
+            let mut prior_peer = match case.route {
+                0 => tls_server(fixture),
+                _ => connect_proxy_then_tls(fixture),
+            };
+            let pport = prior_peer.port();
+            let sibling = match case.route {
+                0 => session.get(format!("https://{host}:{pport}/prior")),
+                _ => session
+                    .get(format!("https://{host}:4443/prior"))
+                    .proxy_settings(attohttpc::ProxySettings::builder().https_proxy(url::Url::parse(&format!("http://127.0.0.1:{pport}")).unwrap()).build()),
+            };
+            let sibling = if case.prior == 1 { sibling.danger_accept_invalid_certs(true) } else { sibling.danger_accept_invalid_hostnames(true) };
+            let _ = sibling.send().and_then(|r| r.text_utf8());
+            prior_peer.join();
+            ctx.label("a-sibling-request-with-a-waiver-was-sent-first");
+        }
         let mut rb = rb;
         if case.withdraw & 1 != 0 {
             rb = rb.danger_accept_invalid_certs(false);
@@ -300,8 +425,8 @@ non-trivial = at least one danger flag, an added root or a non-valid certificate
         let route = ["direct", "tunnel", "https-proxy", "https-proxy-tunnel"][case.route as usize % 4];
         let place = ["session", "request", "sibling-before", "sibling-after", "session-after"][case.place as usize % 5];
         let describe = format!(
-            "[{}] cert {fixture} (chains {chains}, expired {expired}, name matches {name_ok}), host {host}, route {route}, flags set on {place} (accept_invalid_certs {}, accept_invalid_hostnames {}, root added {}), withdrawn on the request (bits certs/hostnames): {}, effective for this request: {effective}",
-            backend(), case.invalid_certs, case.invalid_hostnames, case.add_root, case.withdraw
+            "[{}] cert {fixture} (chains {chains}, expired {expired}, name matches {name_ok}), host {host}, route {route}, flags set on {place} (accept_invalid_certs {}, accept_invalid_hostnames {}, root added {}), withdrawn on the request (bits certs/hostnames): {}, sibling with a waiver sent first: {}, effective for this request: {effective}",
+            backend(), case.invalid_certs, case.invalid_hostnames, case.add_root, case.withdraw, case.prior
         );
         ctx.nontrivial = case.invalid_certs || case.invalid_hostnames || case.add_root || case.cert != 0;
         ctx.label(match case.route {
